@@ -5,7 +5,10 @@
    Input line (whitespace separated tokens):
      <id> { P <va> <nres> <type>* <nargs> (<type> <size>)* }*
           F <va> <nres> <type>* <nargs> (<type> <name>)*
-          { R <type> <name> }*  { I <code> <nops> <op>* }*  E
+          { R <type> <name> | G <type> <name> <hard reg name or -> }*  { I <code> <nops> <op>* }*
+          [ Z F ... ]*  E
+   G = MIR_new_global_func_reg (counts as an R directive for the stage number; `-` = NULL name);
+   Z = finish the current function (stage finish) so that another F can follow.
    Every function gets standard registers ri:i64 rf:f rd:d rl:ld declared first unless the
    F directive is written `F!`.
    Operand tokens:
@@ -16,7 +19,8 @@
      L                 label (fresh; all c15_labels are appended to the function before finishing)
      ref.p<k>          prototype k of this line;  ref.func ref.import ref.export ref.forward ref.data ref.bss
      s                 string
-   Output line:  <id> ok   |   <id> err <MIR_error_type_t value> <stage>
+   Output line:  <id> ok [g=<reg>,<reg>,...]   |   <id> err <MIR_error_type_t value> <stage>
+   (g = the register numbers returned by the G directives, in order: register identity)
    stage: P<k> | F | R<k> | I<k> | finish            (k counts from 0)
    The process exits non-zero only on a crash (sanitizer report, failed assert). */
 #include "mir.c"
@@ -116,7 +120,8 @@ static void run_case (void) {
   MIR_context_t ctx;
   MIR_item_t func_item = NULL;
   MIR_func_t func = NULL;
-  int np = 0, nr = 0, ni = 0, i;
+  int np = 0, nr = 0, ni = 0, i, nf = 0, ng = 0;
+  MIR_reg_t gregs[32];
   MIR_type_t res[16];
   MIR_var_t vars[16];
   MIR_op_t ops[64];
@@ -168,9 +173,11 @@ static void run_case (void) {
         vars[i].name = next ();
         vars[i].size = 8;
       }
+      char fname[16];
+      sprintf (fname, "f%d", nf++);
       strcpy (c15_stage, "F");
-      func_item = va ? MIR_new_vararg_func_arr (ctx, "f", nres, res, nargs, vars)
-                     : MIR_new_func_arr (ctx, "f", nres, res, nargs, vars);
+      func_item = va ? MIR_new_vararg_func_arr (ctx, fname, nres, res, nargs, vars)
+                     : MIR_new_func_arr (ctx, fname, nres, res, nargs, vars);
       func = func_item->u.func;
       if (d[1] != '!') {
         c15_std_i = MIR_new_func_reg (ctx, func, MIR_T_I64, "ri");
@@ -183,6 +190,23 @@ static void run_case (void) {
       const char *name = next ();
       sprintf (c15_stage, "R%d", nr++);
       MIR_new_func_reg (ctx, func, t, name);
+    } else if (strcmp (d, "G") == 0) {
+      MIR_type_t t = (MIR_type_t) nextl ();
+      const char *name = next ();
+      const char *hard = next ();
+      sprintf (c15_stage, "R%d", nr++);
+      if (ng >= 32) exit (3);
+      gregs[ng] = MIR_new_global_func_reg (ctx, func, t, name, strcmp (hard, "-") == 0 ? NULL : hard);
+      ng++;
+    } else if (strcmp (d, "Z") == 0) {
+      strcpy (c15_stage, "labels");
+      for (i = 0; i < c15_nlabels; i++) MIR_append_insn (ctx, func_item, c15_labels[i]);
+      c15_nlabels = 0;
+      strcpy (c15_stage, "finish");
+      MIR_finish_func (ctx);
+      func_item = NULL;
+      func = NULL;
+      nr = ni = 0;
     } else if (strcmp (d, "I") == 0) {
       MIR_insn_code_t code = (MIR_insn_code_t) nextl ();
       int nops = (int) nextl ();
@@ -204,7 +228,9 @@ static void run_case (void) {
   MIR_finish_func (ctx);
   strcpy (c15_stage, "module");
   MIR_finish_module (ctx);
-  printf ("%s ok\n", id);
+  printf ("%s ok", id);
+  for (i = 0; i < ng; i++) printf ("%s%u", i == 0 ? " g=" : ",", (unsigned) gregs[i]);
+  printf ("\n");
 cleanup:
   ctx = vctx;
   if (ctx != NULL) {
